@@ -409,6 +409,8 @@ type Options struct {
 	Twin       bool
 	PerMethod  int
 	SweepStmts bool // thorough: ignore the model's fault class and sweep every real statement index (one behaviour each)
+	// ReadFaultQueries: after every operation, this many proof queries are made with one failing read each
+	ReadFaultQueries int
 }
 
 func (r *runner) runOne(idx int, b Behaviour, mk func(dir string, rng *rand.Rand) (kindDriver, error)) error {
